@@ -794,7 +794,7 @@ Section Flow.
 
   Lemma final_outputs_verify all vdom : (forall P, In P all -> sec_ok (fst P)) -> Forall2 geq vdom (map sgen (all_ss ins SS)) ->
     forall outs outs', Forall2 (final_rel all) outs outs' -> forall k,
-    exists touts cs, extract_outputs outs' = OVal touts /\ verify_outputs vdom touts k = OVal cs
+    exists touts cs, extract_outputs outs' = OVal touts /\ verify_outputs vdom touts k = OVal (map Some cs)
       /\ Forall2 geq cs (map scommit (map fsec outs')) /\ (forall b, asset_total b (map fsec outs') = ptotal b outs)
       /\ length touts = length outs'.
   Proof.
@@ -804,8 +804,11 @@ Section Flow.
       destruct R as [[(K & a & v & A & V & RV & AC & VC & RP & SP & EC) ->]|(P & IP & BF)].
       + exists (mkOut (AExp a) (VExp v) NNull (po_script o0) None None :: touts), (commit v (gH a) 0 :: cs).
         cbn [extract_outputs]. rewrite AC, VC, A, V, EC, RP, SP, EX. cbn [obind]. split; [reflexivity|].
-        cbn [verify_outputs]. unfold verify_output, get_value_commit, get_asset_gen. cbn [o_value o_asset o_script o_rp o_sp].
-        destruct (Z.eqb_spec v 0) as [Z0|_]; [lia|]. cbn [obind map_err]. rewrite pedersen_unblinded_H by exact RV. cbn [obind]. rewrite VO. cbn [obind].
+        cbn [verify_outputs]. rewrite (step_live vdom k (mkOut (AExp a) (VExp v) NNull (po_script o0) None None) (commit v (gH a) 0)).
+        2:{ apply (skipped_nonzero (mkOut (AExp a) (VExp v) NNull (po_script o0) None None) v); [reflexivity|lia]. }
+        2:{ unfold verify_output, get_value_commit, get_asset_gen. cbn [o_value o_asset o_script o_rp o_sp].
+            destruct (Z.eqb_spec v 0) as [Z0|_]; [lia|]. cbn [obind map_err]. rewrite pedersen_unblinded_H by exact RV. reflexivity. }
+        cbn [obind]. rewrite VO. cbn [obind map].
         split; [reflexivity|]. unfold fsec at 1. rewrite RP, A, V. split; [constructor; [apply scommit_iss|exact CS]|]. split; [|cbn; congruence].
         intro b. unfold asset_total, ptotal in *. cbn [map isum fold_right s_asset s_value]. fold isum. specialize (AT b). unfold isum in AT. rewrite AT, A, V. unfold fsec. rewrite RP, A, V. reflexivity.
       + destruct BF as (s & esk & j & bf & A & V & Zabf & RV & FT & KN & ->).
@@ -820,7 +823,8 @@ Section Flow.
                       OVal (wts_out_g pubk ecdh (po_script o0) rk esk s (tgens (party_tg ins (fst P))) j bf :: touts)).
         { unfold blinded_as. rewrite K. cbn [extract_outputs set_blinded wts_out_g po_asset_comm po_amount_comm po_asset po_amount po_ecdh po_script po_rp po_sp o_asset o_value o_nonce o_rp o_sp].
           rewrite EX. reflexivity. }
-        split; [exact EXH|]. cbn [verify_outputs]. rewrite (verify_output_wts_g pubk ecdh vdom k _ rk esk s _ j bf TO DV FT RV). cbn [obind]. rewrite VO. cbn [obind].
+        split; [exact EXH|]. cbn [verify_outputs]. rewrite (step_live vdom k _ (scommit s) (skipped_conf (wts_out_g pubk ecdh (po_script o0) rk esk s (tgens (party_tg ins (fst P))) j bf) (scommit s) eq_refl) (verify_output_wts_g pubk ecdh vdom k _ rk esk s _ j bf TO DV FT RV)).
+        cbn [obind]. rewrite VO. cbn [obind map].
         split; [reflexivity|].
         assert (FS : fsec (blinded_as pubk ecdh (party_tg ins (fst P)) o0 s esk j bf) = s).
         { unfold blinded_as. rewrite K. unfold fsec, osec_of. cbn. apply secrets_eta. }
@@ -966,7 +970,7 @@ Section Flow.
     exists (mkPset ins outs' []), bl, (mkTx (map mk_in ins) touts).
     split; [exact RF|]. split; [reflexivity|]. split; [unfold extract_tx; cbn [ps_out ps_in]; rewrite EX; reflexivity|]. split.
     - apply verify_ok_inv. cbn [t_in t_out]. split; [rewrite map_length; destruct (Forall3_length _ _ _ _ INS) as [_ LU]; exact LU|].
-      exists vdom, vcoms, cs. split; [exact VI|]. split; [exact VO|]. intro k.
+      exists vdom, vcoms, (map Some cs). split; [exact VI|]. split; [exact VO|]. rewrite map_map. cbn [oc2g]. rewrite map_id. intro k.
       rewrite (coeff_gsum_geq vcoms _ k VC), (coeff_gsum_geq cs _ k CS).
       destruct (bkey_cases k) as [->|(b & ->)].
       + rewrite !zsum_G_total. rewrite (zsum_all_ss _ _ _ INS). rewrite <- (zsum_perm _ _ (Permutation_map svb PERM)), <- Isum_total.
